@@ -22,12 +22,16 @@ EXPLANATION = ("With fully symbolic channel matrices and data symbols the real e
                "real channels (pinv through its full-column-rank contract), MRC (n x 1), MRT (1 x n, polar-form contract of np.angle), "
                "Alamouti for 1 and 2 receive antennas.  Defining equations: ZF W H = I, MMSE (H^H H + s^2 I) W = H^H, MMSE at s^2 = 0 is "
                "the ZF filter.  Power: the energy of the encoded block equals the data energy divided as the scheme states.  Histories: "
-               "after set_noise_var(s) / decode / set_noise_var(None) the decoder is zero-forcing again.  SVD/GMD rest on the SVD and "
-               "on the Givens sweep in misc.gmd: bounded native checks (sizes 1..6, Nr >= Nt).")
+               "after set_noise_var(s) / decode / set_noise_var(None) the decoder is zero-forcing again.  SVD and GMD schemes: np.linalg.svd "
+               "under its library contract - H := U diag(S) V^H with every orthogonal / unitary U, V (angle atoms, reduced modulo cos^2 + "
+               "sin^2 = 1) and positive descending S - SVDMimo round trip / precoder / filter shape for 2x2 real (both determinant signs), "
+               "3x2 real, 2x2 complex; GMDMimo with the real misc.gmd executed on the symbolic factors for 2x2 and 3x2 real channels "
+               "(distinct and repeated singular values).  Larger sizes and ill-conditioned channels: bounded native checks.")
 ASSUMPTIONS = [
     "np.linalg.pinv / solve contracts (full column rank: det(H^H H) != 0 as requires); np.angle polar-form contract",
     "sizes configuration-concrete (entries symbolic); ideal reals; binary64 constants 1/sqrt(Nt) carried exactly as rationals",
-    "SVDMimo / GMDMimo and the MMSE -> ZF limit for vanishing noise: bounded native (condition number <= 1e4, tol 1e-8)",
+    "svd library contract: LAPACK returns some valid factorisation H = U S V^H (U, V unitary, S descending), the same for the full and the economy call",
+    "larger SVDMimo / GMDMimo sizes and the MMSE -> ZF limit for vanishing noise: bounded native (condition number up to 1e10, tolerances scaled with it)",
 ]
 TRUSTED_BASE = ["numpy reshape(order='F') / dot executed natively on object arrays", "LAPACK svd in the bounded part"]
 
